@@ -108,7 +108,7 @@ def hostile_name(t, ctx, fsroot, depth_hint):
         return t.pick([b"../er2/evil", b"../er-private/evil", b"../out2/evil", b"../b2/evil", b"../out-old/evil"], "name.sibling")
     if k == 0:
         ctx.probe("name:dotdot")
-        return b"../" * t.rint(1, depth_hint + 1, "name.up") + t.pick([b"bait/evil", b"evil", b"bait/x y"], "name.tail")
+        return b"../" * t.rint(1, depth_hint + 1, "name.up") + t.pick([b"bait/evil", b"evil", b"bait/x y", b"bait/evil-V", b"bait/evil-H"], "name.tail")
     if k == 1:
         ctx.probe("name:absolute")
         return fsroot.encode() + t.pick([b"/bait/abs_evil", b"/abs_evil", b"/out/../bait/abs2"], "name.abs")
@@ -252,8 +252,10 @@ def candidate_targets(scratch_top, sim_cmap_dir, outdir, names):
                 for ext in (".bmp", ".jpg", ".img", ".0.bmp", ".0.jpg"):
                     out.add(os.path.normpath(os.path.join(outdir, v + ext)))
             else:
-                for fn in ("%s.pickle.gz" % v, "to-unicode-%s-Identity.pickle.gz" % v, "to-unicode-Adobe-%s.pickle.gz" % v):
-                    out.add(os.path.normpath(os.path.join(sim_cmap_dir, fn)))
+                twins = [v] + ([v[:-2] + "-H"] if v.endswith("-V") else []) + ([v[:-2] + "-V"] if v.endswith("-H") else [])
+                for w in twins:  # (a vertical CMap has a horizontal twin and the other way round)
+                    for fn in ("%s.pickle.gz" % w, "to-unicode-%s-Identity.pickle.gz" % w, "to-unicode-Adobe-%s.pickle.gz" % w):
+                        out.add(os.path.normpath(os.path.join(sim_cmap_dir, fn)))
     top = os.path.realpath(scratch_top)
     return sorted(p for p in out if os.path.isabs(p) and p.startswith(top + os.sep))
 
